@@ -19,6 +19,7 @@ import (
 	"fmt"
 
 	"golang.org/x/net/http2"
+	"golang.org/x/net/http2/hpack"
 )
 
 // queuedFrame stores frames that belong to a stream and need to be kept in order. The need for
@@ -80,10 +81,12 @@ func (f *queuedDataFrame) String() string {
 }
 
 type queuedHeaderFrame struct {
+	relay     *relay
 	streamID  uint32
 	endStream bool
 	priority  http2.PriorityParam
-	chunks    [][]byte
+	headers   []hpack.HeaderField
+	chunks    [][]byte // set by send
 }
 
 func (f *queuedHeaderFrame) StreamID() uint32 {
@@ -95,6 +98,14 @@ func (*queuedHeaderFrame) flowControlSize() int {
 }
 
 func (f *queuedHeaderFrame) send(dest *http2.Framer) error {
+	var metadataLength uint32
+	if !f.priority.IsZero() {
+		metadataLength = headersPriorityMetadataLength
+	}
+	var err error
+	if f.chunks, err = f.relay.headerChunks(f.headers, metadataLength); err != nil {
+		return err
+	}
 	if err := dest.WriteHeaders(http2.HeadersFrameParam{
 		StreamID:      f.streamID,
 		BlockFragment: f.chunks[0],
@@ -129,9 +140,11 @@ func (f *queuedHeaderFrame) String() string {
 }
 
 type queuedPushPromiseFrame struct {
+	relay     *relay
 	streamID  uint32
 	promiseID uint32
-	chunks    [][]byte
+	headers   []hpack.HeaderField
+	chunks    [][]byte // set by send
 }
 
 func (f *queuedPushPromiseFrame) StreamID() uint32 {
@@ -143,6 +156,10 @@ func (*queuedPushPromiseFrame) flowControlSize() int {
 }
 
 func (f *queuedPushPromiseFrame) send(dest *http2.Framer) error {
+	var err error
+	if f.chunks, err = f.relay.headerChunks(f.headers, pushPromiseMetadataLength); err != nil {
+		return err
+	}
 	if err := dest.WritePushPromise(http2.PushPromiseParam{
 		StreamID:      f.streamID,
 		PromiseID:     f.promiseID,
